@@ -23,3 +23,8 @@ pub(crate) trait PathLocator {
         source: &Path,
     ) -> Result<PathBuf, DarkluaError>;
 }
+
+#[cfg(darklua_verif)]
+pub(crate) fn find_require_paths_for_verif(path: &Path, module_folder_name: &str) -> Vec<PathBuf> {
+    path_iterator::find_require_paths(path, module_folder_name).collect()
+}
